@@ -29,7 +29,11 @@ META = dict(
                "classes, Protocols, NewType, Literal, Annotated, pydantic models / dataclasses / enums, classes without a schema, "
                "classes whose metaclass defines __instancecheck__ - also one that raises -, forward-reference strings, `from "
                "__future__ import annotations`), passed positionally / by keyword / through *rest / not at all, with values of the "
-               "type, convertible, not convertible or null, validation on or off (--no-parse). Second family (implementation only, no model): whole runs of the real "
+               "type, convertible, not convertible or null, validation on or off (--no-parse). In a seventh of these cases the stack holds the "
+               "SimpleRetryMiddleware taskiq ships (any position, its three options varied, also as an application subclass) next to "
+               "the recording middlewares, the failing tasks' retry-control labels (retry_on_error, max_retries, _retries) arriving as "
+               "bool / int / float / str or not at all, typed through labels_types or not, its re-send going through the real kicker "
+               "into the scripted broker: whatever the hook does, exactly one acknowledgement at the configured point. Second family (implementation only, no model): whole runs of the real "
                "Receiver.listen() - prefetcher, hand-over queue, runner, one callback task per message - on saturating "
                "lock-step backlogs (several slots free at once, the runner dispatches several queued messages in one step), "
                "stop requests, budgets, with the statement re-checked over the raw log of the ack callables, task bodies "
